@@ -435,7 +435,23 @@ def pf_uncoupled(D, T=4, freq='h', unit='h', wacc=False, orderbook=None, take=No
     return Shape(pf, tg, prices_for(D, ['p', 'q', 'r'], T))
 
 
-PORTFOLIOS = dict(names=pf_names, uncoupled=pf_uncoupled, caps_ts=pf_caps_ts, windows=pf_windows, contract_storage=pf_contract_storage, two_node=pf_two_node, multicommodity=pf_multicommodity,
+def pf_caps_dict(D, T=4, wacc=False, tz=None):
+    """contract whose capacities / extra costs are interval data (with and without 'end'; uncovered steps of the extra costs -> 0)"""
+    eao = lift.import_eao()
+    tg = grid(T, 'h', 'h', tz)
+    (nA,) = nodes('A')
+    w = D('wacc', lo=0) if wacc else 0
+    hh = lambda k: T0 + dt.timedelta(hours=k)
+    ct = eao.assets.Contract(name='ct', nodes=nA, price='r', wacc=w,
+                             min_cap={'start': [hh(0), hh(1)], 'end': [hh(1), hh(9)], 'values': [D('cmin0', hi=0), D('cmin1', hi=0)]},
+                             max_cap={'start': [hh(0), hh(2)], 'values': [D('cmax0', lo=0), D('cmax1', lo=0)]},
+                             extra_costs={'start': [hh(1)], 'end': [hh(3)], 'values': [D('ec', lo=0)]})
+    m = mk_market(D, 'mkt', nA, T, 'p', wacc=w)
+    pf = eao.portfolio.Portfolio([ct, m])
+    return Shape(pf, tg, prices_for(D, ['p', 'r'], T))
+
+
+PORTFOLIOS = dict(names=pf_names, caps_dict=pf_caps_dict, uncoupled=pf_uncoupled, caps_ts=pf_caps_ts, windows=pf_windows, contract_storage=pf_contract_storage, two_node=pf_two_node, multicommodity=pf_multicommodity,
                   contract_take=pf_contract_take, plant=pf_plant, coarse=pf_coarse, periodic=pf_periodic,
                   orderbook=pf_orderbook, scaled=pf_scaled, structured=pf_structured, ext_transport=pf_ext_transport)
 
